@@ -1,0 +1,56 @@
+// Copyright ©2024 The bíogo Authors. All rights reserved.
+// Use of this source code is governed by a BSD-style
+// license that can be found in the LICENSE file.
+
+//go:build verif
+
+package bgzf
+
+import (
+	"bytes"
+	"compress/gzip"
+	"fmt"
+)
+
+// VerifNewBlock manufactures a Block the way a decompressor would leave it: based at base,
+// with a header announcing a member of size bytes (so NextBase is base+size), holding data,
+// and with the used flag as given.
+func VerifNewBlock(owner *Reader, base int64, size int, data []byte, used bool) Block {
+	b := &block{owner: owner}
+	VerifRebase(b, base, size, data, used)
+	return b
+}
+
+// VerifRebase overwrites b with another member, as the Reader does with a Block that a Cache
+// reported as evicted or not retained.
+func VerifRebase(blk Block, base int64, size int, data []byte, used bool) {
+	b := blk.(*block)
+	b.setBase(base)
+	sz := size - 1
+	b.setHeader(gzip.Header{OS: 0xff, Extra: []byte{'B', 'C', 2, 0, byte(sz), byte(sz >> 8)}})
+	n := copy(b.data[:], data)
+	b.buf = bytes.NewReader(b.data[:n])
+	b.used = used
+}
+
+// VerifBlockData returns the whole payload of a Block without moving its cursor.
+func VerifBlockData(blk Block) []byte {
+	b, ok := blk.(*block)
+	if !ok || b.buf == nil {
+		return nil
+	}
+	return b.data[:b.buf.Size()]
+}
+
+// VerifDump renders the mutable state of a Reader that its methods read (for state keys).
+func (bg *Reader) VerifDump() string {
+	cur := "nil"
+	if bg.current != nil {
+		cur = fmt.Sprintf("base=%d next=%d off=%d len=%d used=%v data=%v", bg.current.Base(), bg.current.NextBase(),
+			bg.current.txOffset().Block, bg.current.len(), bg.current.Used(), bg.current.hasData())
+	}
+	return fmt.Sprintf("cur{%s} err=%v blocked=%v last=%v", cur, bg.err, bg.Blocked, bg.lastChunk)
+}
+
+// VerifCurrent returns the Reader's current Block.
+func (bg *Reader) VerifCurrent() Block { return bg.current }
